@@ -20,7 +20,7 @@ import (
 
 func c15boundaryResidues() []*big.Int {
 	var out []*big.Int
-	b256 := new(big.Int).Lsh(big.NewInt(1), 256)
+	zvB256 := new(big.Int).Lsh(big.NewInt(1), 256)
 	p := ref.SM2P
 	add := func(v *big.Int) {
 		for d := int64(-2); d <= 2; d++ {
@@ -32,14 +32,14 @@ func c15boundaryResidues() []*big.Int {
 	}
 	for _, k := range []int64{2, 3, 4, 8} {
 		for j := int64(1); j < k; j++ {
-			add(new(big.Int).Div(new(big.Int).Mul(big.NewInt(j), b256), big.NewInt(k)))
-			add(new(big.Int).Div(new(big.Int).Add(new(big.Int).Mul(big.NewInt(j), b256), p), big.NewInt(k)))
+			add(new(big.Int).Div(new(big.Int).Mul(big.NewInt(j), zvB256), big.NewInt(k)))
+			add(new(big.Int).Div(new(big.Int).Add(new(big.Int).Mul(big.NewInt(j), zvB256), p), big.NewInt(k)))
 			add(new(big.Int).Div(new(big.Int).Mul(big.NewInt(j), p), big.NewInt(k)))
-			add(new(big.Int).Div(new(big.Int).Add(new(big.Int).Mul(big.NewInt(j), b256), new(big.Int).Sub(b256, p)), big.NewInt(k)))
+			add(new(big.Int).Div(new(big.Int).Add(new(big.Int).Mul(big.NewInt(j), zvB256), new(big.Int).Sub(zvB256, p)), big.NewInt(k)))
 		}
 	}
 	add(new(big.Int).Sub(p, big.NewInt(3)))
-	add(new(big.Int).Sub(b256, p))
+	add(new(big.Int).Sub(zvB256, p))
 	return out
 }
 
@@ -90,8 +90,8 @@ func c15lambda(P ref.Pt, kind string, v *big.Int) (*big.Int, bool) {
 func c15chosenRepresentatives(r *hk.Reporter, rng *hk.RNG) {
 	kinds := []string{"X", "Y", "Z", "X^2", "Y^2", "Z^2", "XY", "XZ", "YZ"}
 	res := c15boundaryResidues()
-	pts := []ref.Pt{ref.G(), ref.BaseMulFast(big.NewInt(2)), ref.BaseMulFast(randScalarI(rng)), ref.BaseMulFast(randScalarI(rng))}
-	Q := ref.BaseMulFast(randScalarI(rng))
+	pts := []ref.Pt{ref.G(), ref.BaseMulFast(big.NewInt(2)), ref.BaseMulFast(zvRandScalarI(rng)), ref.BaseMulFast(zvRandScalarI(rng))}
+	Q := ref.BaseMulFast(zvRandScalarI(rng))
 	n := 0
 	for vi, v0 := range res {
 		for ki, kind := range kinds {
@@ -112,14 +112,14 @@ func c15chosenRepresentatives(r *hk.Reporter, rng *hk.RNG) {
 			if lam == nil {
 				continue
 			}
-			rep := fromRef(P, lam)
-			d := hk.D{"point": ptHex(P), "intermediate": kind, "internal_value": fmt.Sprintf("%064x", v), "lambda": fmt.Sprintf("%064x", lam)}
+			rep := zvFromRef(P, lam)
+			d := hk.D{"point": zvPtHex(P), "intermediate": kind, "internal_value": fmt.Sprintf("%064x", v), "lambda": fmt.Sprintf("%064x", lam)}
 			var dbl, sum, sum2, self *SM2Point
 			p, msg, _, _ := hk.Try(func() {
 				dbl = NewSM2Point().Double(rep)
-				sum = NewSM2Point().Add(rep, fromRef(Q, big.NewInt(1)))
-				sum2 = NewSM2Point().Add(fromRef(Q, lam), rep)
-				self = NewSM2Point().Add(rep, fromRef(P, big.NewInt(1)))
+				sum = NewSM2Point().Add(rep, zvFromRef(Q, big.NewInt(1)))
+				sum2 = NewSM2Point().Add(zvFromRef(Q, lam), rep)
+				self = NewSM2Point().Add(rep, zvFromRef(P, big.NewInt(1)))
 			})
 			if p {
 				d["panic"] = msg
@@ -127,8 +127,8 @@ func c15chosenRepresentatives(r *hk.Reporter, rng *hk.RNG) {
 				continue
 			}
 			chk := func(op string, got *SM2Point, want ref.Pt) {
-				if g, _ := toRef(got); !g.Eq(want) {
-					d["op"], d["got"], d["want"] = op, ptHex(g), ptHex(want)
+				if g, _ := zvToRef(got); !g.Eq(want) {
+					d["op"], d["got"], d["want"] = op, zvPtHex(g), zvPtHex(want)
 					r.Violation("point-arithmetic-wrong-on-representative-with-chosen-internal-value:"+op, d)
 				}
 			}
